@@ -130,9 +130,14 @@ fn feed(side: Side, bytes: &[u8], cuts: &[usize], limit: usize) -> Result<(Vec<S
                 return Err("decode did not return None after 64 frames from one read".into());
             }
             let before = buf.len();
-            let r = match side {
+            // a panic inside the decoder (an assertion, a slice out of range) is an answer too:
+            // the frame was neither decoded nor rejected
+            let r = match std::panic::catch_unwind(std::panic::AssertUnwindSafe(|| match side {
                 Side::Supplier => sup.decode(&mut buf).map(|o| o.map(|m| jreq(&m))),
                 Side::Consumer => con.decode(&mut buf).map(|o| o.map(|m| jresp(&m))),
+            })) {
+                Ok(r) => r,
+                Err(_) => return Err("decoder panicked".into()),
             };
             match r {
                 Ok(Some(s)) => {
@@ -236,6 +241,8 @@ pub fn run(args: &[String]) -> ! {
         ctx.finish();
     }
 
+    // decoder panics are caught and reported as violations; keep their messages off stderr
+    std::panic::set_hook(Box::new(|_| {}));
     // ---- all message sequences
     let mut streams: Vec<Stream> = Vec::new();
     for side in [Side::Supplier, Side::Consumer] {
